@@ -276,6 +276,46 @@ def handle (j : Json) : R Json := do
       | "embedding" => pure (tj (embeddingTerms (← jnat j "vocab") (← jnat j "batch")))
       | "mse_loss" => pure (tj mseTerms)
       | o => .error s!"terms: unknown op {o}"
+  | "quant" =>
+      -- {"E","M","off":"nearest"|"sr","srbits","r"|"rs","bits":[..]} -> {"out":[..]}
+      let E ← jnat j "E"; let M ← jnat j "M"
+      let bits ← jnats j "bits"
+      let mode ← jstr j "mode"
+      if mode == "nearest" then
+        pure (Json.mkObj [("out", Json.arr (bits.map fun b => jn (F32.quantBits E M (F32.offNearest M) b)).toArray)])
+      else
+        let sb ← jnat j "srbits"
+        match j.getObjVal? "rs" with
+        | .ok _ =>
+          let rs ← jnats j "rs"
+          pure (Json.mkObj [("out", Json.arr ((bits.zip rs).map fun (b, r) =>
+            jn (F32.quantBits E M (F32.offSR M sb r) b)).toArray)])
+        | .error _ =>
+          let r ← jnat j "r"
+          pure (Json.mkObj [("out", Json.arr (bits.map fun b => jn (F32.quantBits E M (F32.offSR M sb r) b)).toArray)])
+  | "quantblock" =>
+      -- checksum over all patterns in [lo, hi): sum of out * (2*bits+1) mod 2^64 (NaN inputs skipped)
+      let E ← jnat j "E"; let M ← jnat j "M"
+      let lo ← jnat j "lo"; let hi ← jnat j "hi"
+      let off := F32.offNearest M
+      let rec go (b : Nat) (fuel : Nat) (acc : UInt64) : UInt64 :=
+        match fuel with
+        | 0 => acc
+        | fuel + 1 =>
+          let mag := b % 2 ^ 31
+          let acc' := if mag > 255 * 2 ^ 23 then acc
+            else acc + (F32.quantBits E M off b).toUInt64 * (2 * b + 1).toUInt64
+          go (b + 1) fuel acc'
+      pure (Json.mkObj [("sum", jn (go lo (hi - lo) 0).toNat)])
+  | "srcount" =>
+      -- {"E","M","srbits","bits":[magnitudes]} -> counts of draws rounding up + closed form on q
+      let E ← jnat j "E"; let M ← jnat j "M"; let sb ← jnat j "srbits"
+      let bits ← jnats j "bits"
+      pure (Json.mkObj [("count", Json.arr (bits.map fun b => jn (F32.countUp E M sb b)).toArray),
+        ("q", Json.arr (bits.map fun b => jn (F32.preRound E M b)).toArray),
+        ("floor", Json.arr (bits.map fun b => jn (F32.quantMag E M 0 b)).toArray),
+        ("up", Json.arr (bits.map fun b => jn (F32.quantMag E M (2 ^ (23 - M) - 1) b)).toArray),
+        ("core", Json.arr (bits.map fun b => jn (F32.countUpCore (23 - M) (23 - M - sb) (F32.preRound E M b))).toArray)])
   | "groups" => groupsCmd j
   | "zerostep" =>
       let lr ← jflt j "lr"; let wd ← jflt j "wd"; let p ← jflt j "p"
